@@ -337,6 +337,16 @@ fn hello_for(caps: &[String]) -> String {
             schemes.join(",")
         ));
     }
+    // for every standard capability the server does NOT have: URIs that resemble it and are something else (the XML
+    // namespace form some servers list next to the capabilities, a version nobody defined)
+    for name in ["wr", "cand", "cc10", "cc11", "roe", "val10", "val11", "startup", "xpath"] {
+        if !caps.iter().any(|c| c == name) {
+            let u = cap_uri(name).unwrap();
+            uris.push(u.replace("urn:ietf:params:netconf:capability:", "urn:ietf:params:xml:ns:netconf:capability:"));
+            let stem = u.rsplit_once(':').map(|(a, _)| a).unwrap_or(u);
+            uris.push(format!("{stem}:9.9"));
+        }
+    }
     // capabilities a real server also sends and that must not matter
     uris.push("urn:ietf:params:xml:ns:yang:ietf-netconf-monitoring".into());
     uris.push("http://xml.juniper.net/dmi/system/1.0".into());
@@ -357,6 +367,8 @@ fn url_for(scheme: &str) -> String {
 }
 
 /// Issue the request with exactly the parameters the content has; returns (sent, local error, wire)
+static REPLY_TAG: std::sync::Mutex<Option<String>> = std::sync::Mutex::new(None);
+
 fn attempt(ws: &mut WSess, c: &Value) -> (bool, String, String) {
     attempt_ordered(ws, c, false)
 }
@@ -380,7 +392,12 @@ fn attempt_ordered(ws: &mut WSess, c: &Value, rev: bool) -> (bool, String, Strin
         _ => None,
     };
     let before = ws.ctl.sent_len();
-    let noreply = |_id: u64| -> Option<String> { None };
+    // (C09 histories: the server answers with an rpc-error of the tag in REPLY_TAG; otherwise it does not answer at all)
+    let noreply = |id: u64| -> Option<String> {
+        REPLY_TAG.lock().unwrap().as_ref().map(|tag| {
+            reply_msg(id, &format!("<rpc-error><error-type>protocol</error-type><error-tag>{tag}</error-tag><error-severity>error</error-severity><error-message>refused by the server</error-message></rpc-error>"))
+        })
+    };
     macro_rules! go {
         ($ty:ty, $build:expr) => {{
             let (sent, r) = call_rpc!(ws, $ty, $build, noreply);
@@ -642,6 +659,37 @@ fn c09(contents_path: &str, capsets_path: &str, out: &mut dyn Write) {
     for (k, caps) in capsets.as_array().unwrap().iter().enumerate() {
         let caps = strs(caps);
         let hello = hello_for(&caps);
+        if k % 16 == 3 {
+            // what is permitted does not depend on what the server answered before: every request once more on a session
+            // on which the server has just refused the same request with an rpc-error
+            for tag in ["operation-not-supported", "access-denied"] {
+                *REPLY_TAG.lock().unwrap() = Some(tag.to_string());
+                let mut ws = WSess::with_hello(hello.clone()).expect("session");
+                for (j, c) in contents.iter().enumerate() {
+                    if c["op"] == "close-session" || c["op"] == "kill-session" {
+                        continue;
+                    }
+                    let r = std::panic::catch_unwind(std::panic::AssertUnwindSafe(|| {
+                        let _ = attempt(&mut ws, c);
+                        attempt(&mut ws, c)
+                    }));
+                    let (sent, local, wire) = match r {
+                        Ok(x) => x,
+                        Err(_) => {
+                            ws = WSess::with_hello(hello.clone()).expect("session");
+                            (false, "panic".into(), String::new())
+                        }
+                    };
+                    if wire == "skip" {
+                        continue;
+                    }
+                    let wire_ok = !sent || wire_matches(c, &wire) || c["complete"] == false;
+                    writeln!(out, "{}", json!({"ev": "c09", "case": k * 1000 + j, "capset": k, "content": j, "caps": caps, "c": c, "history": format!("after-{tag}"),
+                        "sent": sent, "local": local.chars().take(120).collect::<String>(), "wire_ok": wire_ok})).unwrap();
+                }
+            }
+            *REPLY_TAG.lock().unwrap() = None;
+        }
         let mut ws = WSess::with_hello(hello.clone()).expect("session");
         for (j, c) in contents.iter().enumerate() {
             let r = std::panic::catch_unwind(std::panic::AssertUnwindSafe(|| attempt(&mut ws, c)));
@@ -991,6 +1039,8 @@ fn templates() -> Vec<(&'static str, &'static str, Node)> {
             "load-configuration",
             reply(vec![el("load-configuration-results", vec![err_node(1, "error"), tok("load-error-count", "1")])]),
         ),
+        // results that say nothing but "no errors counted": neither a positive indication nor an error
+        ("load-count-only", "load-configuration", reply(vec![el("load-configuration-results", vec![tok("load-error-count", "0")])])),
         ("load-warning-ok", "load-configuration", reply(vec![el("load-configuration-results", vec![err_node(1, "warning"), el("ok", vec![])])])),
     ]
 }
@@ -1156,6 +1206,10 @@ fn c10(cases_path: &str, out: &mut dyn Write) {
             let (sent, local, locate, fragment): (bool, String, &str, bool) = match param.as_str() {
                 "persist" => { let (s, l) = go!(Commit, move |b| b.confirmed(true)?.persist(Some(Token::new(&val)))?.finish()); (s, l, "persist", false) }
                 "persist-id" => { let (s, l) = go!(Commit, move |b| b.persist_id(Some(Token::new(&val)))?.finish()); (s, l, "persist-id", false) }
+                // every parameter of the request at once: a follow-up confirmed commit that renews the token - each value
+                // that goes out is the one that was given (if the library refuses the combination, nothing goes out)
+                "persist-id-with-persist" => { let (s, l) = go!(Commit, move |b| b.confirmed(true)?.persist(Some(Token::new("the-new-token")))?.persist_id(Some(Token::new(&val)))?.finish()); (s, l, "persist-id", false) }
+                "persist-with-persist-id" => { let (s, l) = go!(Commit, move |b| b.confirmed(true)?.persist_id(Some(Token::new("the-pending-token")))?.persist(Some(Token::new(&val)))?.finish()); (s, l, "persist", false) }
                 "cancel-persist-id" => { let (s, l) = go!(CancelCommit, move |b| b.persist_id(Some(Token::new(&val)))?.finish()); (s, l, "persist-id", false) }
                 "log" => { let (s, l) = go!(CommitConfiguration, move |b| b.with_log_message(&val).finish()); (s, l, "log", false) }
                 "log-after-failed-write" => {
